@@ -450,7 +450,9 @@ class Recfile(object):
 
         if self.is_ascii:
             # for ascii, make sure the data are in native format.  This greatly
-            # simplifies the C code
+            # simplifies the C code.  Convert a copy: the caller's array must
+            # not be modified
+            dataview = dataview.copy()
             to_native_inplace(dataview)
 
         self.robj.Write(dataview)
